@@ -3,8 +3,9 @@
 side can take the type name from the table ``TYPEID`` below rather than from the code under test."""
 from enum import Enum
 from pathlib import Path
-from typing import Any, Dict, List, Optional
+from typing import Dict, List, Optional
 
+from experimaestro.core.types import Any as AnyValue
 from experimaestro import (Config, Constant, LightweightTask, Meta, Option, Param, PathGenerator, Task, deprecate, field)
 
 
@@ -51,8 +52,9 @@ class Scal(Config):
 
 
 class AnyP(Config):
+    """Untyped parameter: keeps int / float / str apart (no coercion)"""
     __xpmid__ = "zoo.anyp"
-    v: Param[Any]
+    v: Param[AnyValue]
 
 
 class Lst(Config):
@@ -168,55 +170,59 @@ class ConstS2(Config):
 
 # --- class evolution: same type identifier, the "new" class has one more parameter outside the signature
 
-class EvoOld(Config):
+class EvoBase(Config):
+    __xpmid__ = "zoo.evobase"
+
+
+class EvoOld(EvoBase):
     __xpmid__ = "zoo.evo"
     a: Param[int]
     l: Param[List[int]] = []
 
 
-class EvoDefault(Config):
+class EvoDefault(EvoBase):
     __xpmid__ = "zoo.evo"
     a: Param[int]
     l: Param[List[int]] = []
     b: Param[int] = 1
 
 
-class EvoNone(Config):
+class EvoNone(EvoBase):
     __xpmid__ = "zoo.evo"
     a: Param[int]
     l: Param[List[int]] = []
     b: Param[Optional[Leaf]] = None
 
 
-class EvoMeta(Config):
+class EvoMeta(EvoBase):
     __xpmid__ = "zoo.evo"
     a: Param[int]
     l: Param[List[int]] = []
     b: Meta[int] = 3
 
 
-class EvoOption(Config):
+class EvoOption(EvoBase):
     __xpmid__ = "zoo.evo"
     a: Param[int]
     l: Param[List[int]] = []
     b: Option[str] = "z"
 
 
-class EvoPath(Config):
+class EvoPath(EvoBase):
     __xpmid__ = "zoo.evo"
     a: Param[int]
     l: Param[List[int]] = []
     path: Meta[Path] = field(default_factory=PathGenerator("path"))
 
 
-class EvoList(Config):
+class EvoList(EvoBase):
     __xpmid__ = "zoo.evo"
     a: Param[int]
     l: Param[List[int]] = []
     b: Param[List[int]] = [4]
 
 
-class EvoDict(Config):
+class EvoDict(EvoBase):
     __xpmid__ = "zoo.evo"
     a: Param[int]
     l: Param[List[int]] = []
@@ -225,8 +231,8 @@ class EvoDict(Config):
 
 class EvoHolder(Config):
     __xpmid__ = "zoo.evoholder"
-    e: Param[EvoOld]
-    es: Param[List[EvoOld]] = []
+    e: Param[EvoBase]
+    es: Param[List[EvoBase]] = []
 
 
 # --- cyclic / shared graphs
@@ -316,7 +322,7 @@ TYPEID = {
     Holder: "zoo.holder", Deep: "zoo.deep", Neutral: "zoo.neutral", Const1: "zoo.const", Const2: "zoo.const",
     Const1bis: "zoo.const", ConstS: "zoo.consts", ConstS2: "zoo.consts", EvoOld: "zoo.evo", EvoDefault: "zoo.evo",
     EvoNone: "zoo.evo", EvoMeta: "zoo.evo", EvoOption: "zoo.evo", EvoPath: "zoo.evo", EvoList: "zoo.evo",
-    EvoDict: "zoo.evo", EvoHolder: "zoo.evoholder", Node: "zoo.node", NewC: "zoo.newc", OldC: "zoo.newc",
+    EvoDict: "zoo.evo", EvoHolder: "zoo.evoholder", EvoBase: "zoo.evobase", Node: "zoo.node", NewC: "zoo.newc", OldC: "zoo.newc",
     DerivedC: "zoo.derivedc", DepHolder: "zoo.depholder", Producer: "zoo.producer", Producer2: "zoo.producer2",
     Plain: "zoo.plain", Consumer: "zoo.consumer", Light: "zoo.light", Light2: "zoo.light2",
 }
